@@ -1,9 +1,10 @@
 """C19 — abandoned or failing calls are cancelled and never wedge the server (M_rtc)."""
 from vlib.rtccheck import run_rtc
+from vlib.rfncheck import run_rfn, merge_coverage
 
 LEAN_MODULE = "RemocModel.Props.C19"
-LEAN_EXES = ["rtc"]
-HARNESS_BINS = ["rtc"]
+LEAN_EXES = ["rtc", "rfn"]
+HARNESS_BINS = ["rtc", "rfn"]
 THEOREMS = [
     "Remoc.Rtc.cancel_at_next_await",
     "Remoc.Rtc.cancel_enabled",
@@ -21,6 +22,17 @@ THEOREMS = [
     "Remoc.Rtc.f6_oversize_reply_stops_server",
     "Remoc.Rtc.f10_oversize_request_poisons_client",
     "Remoc.Rtc.fullinv_of_reachable",
+    # remote functions (M_rfn)
+    "Remoc.Rfn.rfn_no_pending_at_quiescence",
+    "Remoc.Rfn.rfn_error_has_cause",
+    "Remoc.Rfn.rfn_provider_stops_only_for_cause",
+    "Remoc.Rfn.rfn_provider_keeps_serving",
+    "Remoc.Rfn.rfn_calls_complete",
+    "Remoc.Rfn.rfn_cancel_at_next_await",
+    "Remoc.Rfn.rfn_cancel_enabled",
+    "Remoc.Rfn.rfn_cancel_at_next_await_partial",
+    "Remoc.Rfn.rfn_f1_not_cancelled_pinned",
+    "Remoc.Rfn.inv_of_reachable",
 ]
 RULE = ("same real runs as C12 (all server flavours and spawn modes, local and transported clients, hand-driven gates): call futures "
         "dropped before queueing / queued / waiting for the lock / executing / with the reply in flight, cancellable and #[no_cancel] "
@@ -49,4 +61,12 @@ DESIGN_REF = "DESIGN.md section 5, C19"
 
 
 def run(ctx, replay=None):
-    run_rtc(ctx, "c19", replay)
+    # a replay file is an rtc script or an rfn script (header `case <name> fl=...`)
+    is_rfn = False
+    if replay:
+        with open(replay) as f:
+            is_rfn = any(l.startswith("case ") and " fl=" in l for l in f)
+    if not is_rfn:
+        run_rtc(ctx, "c19", replay)
+    if is_rfn or not replay:
+        merge_coverage(ctx, run_rfn(ctx, "c19", replay))
